@@ -236,10 +236,15 @@ def samplers(res, ctx, rng):
             nested.append(H.thd_data(thd[0], thd[1], rng.getrandbits(30), rng.randrange(128)))
         frames = [rng.getrandbits(47) for _ in range(4 * n_data)]
         nframes = rng.choice((len(frames), max(0, len(frames) - 2), len(frames) + 3))
+        if rng.random() < 0.15:
+            nframes = rng.choice(H.HEADER_COUNT_BOUNDARIES)
         if has_hdr:
             nested.append(H.stk_uhdr(rng.randrange(512), nframes))
         for k in range(n_data):
             nested.append(H.stk_udata(frames[4 * k:4 * k + 4]))
+        if rng.random() < 0.4:
+            nested = H.reposition(rng, nested)      # "any order": the header / thread data anywhere among the data records
+            res.count('sampler_windows_with_repositioned_header')
         nested = with_noise(rng, nested)
         actionid = rng.randrange(1000)
         seq = H.sampler(what, actionid, nested)
